@@ -307,16 +307,17 @@ fn next_bytes<'s>(
             }
             false
         } else {
-            let (next_state, action) = state_change(State::Ground, b);
+            let (next_state, action) = state_change(*state, b);
+            if !is_printable_bytes(action, b) {
+                return true;
+            }
             if next_state != State::Anywhere {
                 *state = next_state;
             }
             if *state == State::Utf8 {
                 utf8parser.add(b);
-                false
-            } else {
-                !is_printable_bytes(action, b)
             }
+            false
         }
     });
     let (printable, next) = bytes.split_at(offset.unwrap_or(bytes.len()));
